@@ -102,3 +102,60 @@ def script_probe(rec):
         print("REPRODUCED on the real code by", r["script"])
         return 10
     return 0
+
+
+def rescale_init(rec):
+    """C07: construct the real RescaleToBounds with the option combinations
+    the constructor's contract ranges over (prior None / 'uniform' / other,
+    update_bounds on / off, the post-rescaling of the failed variant) and
+    evaluate the same contract strings on the constructed object."""
+    import sys
+    sys.path.insert(0, "/verif")
+    from pyvc import contracts as C
+    from replay.run import eval_spec
+    from nessai.reparameterisations.rescale import RescaleToBounds
+    C.load_all()
+    key = rec.get("contract_key") or rec["function"]
+    con = [c for c in C.CONTRACTS.values() if c.key[1] == key][0]
+    post = con.params["post_rescaling"]
+    post = post[1] if isinstance(post, tuple) else None
+    bad = n = 0
+    for prior in (None, "uniform", "other"):
+        for upd in (False, True):
+            n += 1
+            env = {"prior": prior, "update_bounds": upd,
+                   "post_rescaling": post}
+            desc = f"RescaleToBounds(prior={prior!r}, update_bounds={upd}, " \
+                   f"post_rescaling={post!r})"
+            try:
+                obj = RescaleToBounds(
+                    parameters=["a", "b"],
+                    prior_bounds={"a": [0.0, 1.0], "b": [-1.0, 3.0]},
+                    prior=prior, update_bounds=upd, post_rescaling=post)
+            except Exception as ex:                       # noqa: BLE001
+                cond = con.raises.get(type(ex).__name__)
+                if cond is None or not eval_spec(cond, env, env, None):
+                    print(f"REPRODUCED: {desc} raised "
+                          f"{type(ex).__name__}: {ex}")
+                    bad += 1
+                continue
+            if any(eval_spec(c, env, env, None)
+                   for c in con.raises.values()):
+                print(f"REPRODUCED: {desc} did not raise")
+                bad += 1
+                continue
+            env["self"] = obj
+            for j, e in enumerate(con.ensures):
+                try:
+                    ok = eval_spec(e, env, env, None)
+                except Exception as ex:                   # noqa: BLE001
+                    print(f"ensures[{j}] not evaluable: {ex!r}")
+                    continue
+                if not ok:
+                    print(f"REPRODUCED: {desc}: ensures[{j}] is false on "
+                          f"the real object: {e}")
+                    bad += 1
+    if bad:
+        return 10
+    print(f"{n} constructions satisfy the contract: not reproduced")
+    return 0
